@@ -522,9 +522,9 @@ func (sf *SpecFile) GoSource() string {
 	for _, im := range sf.Imports {
 		fmt.Fprintf(&b, "import %s\n", im)
 	}
-	b.WriteString(prelude)
+	b.WriteString(renamePrelude(prelude))
 	b.WriteString("\n")
-	b.Write(sf.body.Bytes())
+	b.WriteString(renamePrelude(sf.body.String()))
 	return b.String()
 }
 
@@ -696,3 +696,14 @@ func (sf *SpecFile) genLines() []string {
 }
 
 func trimSpaceStr(s string) string { return strings.Join(strings.Fields(s), " ") }
+
+var preludeRe = regexp.MustCompile(`(^|[^.\w])(assert|assume|implies|seqeq|cat|sub|val|u16|u32|forall|exists|suffix|within|fresh|same|isnil)\(`)
+
+// renamePrelude gives the ghost vocabulary collision-free names in the
+// generated Go (contracts are written with the short names).
+func renamePrelude(s string) string {
+	for i := 0; i < 2; i++ { // twice: adjacent matches share a delimiter
+		s = preludeRe.ReplaceAllString(s, "${1}gvc_${2}(")
+	}
+	return s
+}
